@@ -1,2 +1,3 @@
 import Gen.Tables
 import Gen.Arith
+import Gen.Helpers
